@@ -48,6 +48,11 @@ package remember
 //@       ctxvalues(req) != nil && val(ctxvalues(req), "GetShouldRemember", bool)
 //@   ensures[C07] cookie_is_stored_token: each Cook.Put(?k, ?tok) => k == "rm" &&
 //@       before Store.AddRememberToken(?p, ?h) -> ?e :: e == nil && h == b64std(sha512(b64url_dec(tok)))
+//@   -- ... and the token is stored for the account that just logged in (the context user of
+//@   -- the login event), not for whoever the request was identified as before
+//@   ensures[C07] token_for_logged_in_user: each Store.AddRememberToken(?p, _) =>
+//@       ite(ctxuser(req) != nil, p == PID(ctxuser(req)),
+//@           before Store.Load(?lp) -> (?u, ?le) :: le == nil && p == PID(u))
 //@   ensures[C07] never_touches_session: !emits Sess.Put(_, _) && !emits Sess.Del(_)
 //@   ensures[C18] add_error_outcome: each Store.AddRememberToken(_, _) -> ?e => e != nil ==> (result.1 != nil && !emits Cook.Put(_, _))
 //@
